@@ -54,29 +54,7 @@ class LenVal:
         self.lo, self.hi, self.sym = lo, hi, sym
 
 
-class SuccCtx:
-    """Memoised 'success implies length' summaries (bottom-up over the acyclic call graph)."""
-
-    def __init__(self, facts):
-        self.f = facts
-        self.memo = {}
-        self.busy = set()
-
-    def succ_len(self, fid):
-        if fid in self.memo:
-            return self.memo[fid]
-        if fid in self.busy:
-            return {}
-        fn = self.f.fns.get(fid)
-        if fn is None:
-            return {}
-        self.busy.add(fid)
-        try:
-            r = FnEval(self.f, Body(fn), self).success_lengths()
-        finally:
-            self.busy.discard(fid)
-        self.memo[fid] = r
-        return r
+from .absint import SuccCtx  # noqa: E402  (shared with descr)
 
 
 class FnTotality:
